@@ -244,7 +244,9 @@ func c01ArgAlphabet() []nodeFn {
 	add(func() *rt.Node { return rt.QId("fs") })
 	add(func() *rt.Node { return rt.Attr(Id("fs"), Id("x")) })
 	for _, v := range []string{"abc", "", "fs", "%d %s", "[", "(a", "bool", "int", "float", "str", "string", "s", "ms", "RFC3339", "ANSIC",
-		"+8", "Asia/Shanghai", "Nope/Zone", "%{INT:x}", "%{NOPE}", "%{WORD:w} %{INT:n:int}", "//b", "a%zz", "2021-01-02 03:04:05"} {
+		"+8", "Asia/Shanghai", "Nope/Zone", "%{INT:x}", "%{NOPE}", "%{WORD:w} %{INT:n:int}", "//b", "a%zz", "2021-01-02 03:04:05",
+		// texts that end in the middle of something: a format directive with a dangling flag, a template reference, a lone backslash
+		"%Y-%m-%d %-", "${1", "\\"} {
 		v := v
 		add(func() *rt.Node { return S(v) })
 	}
@@ -530,6 +532,12 @@ func c01SelfRef(w *run.Worker) {
 		{rt.Assign("=", Id("x"), rt.Index("l", I(2))), rt.Assign("=", rt.Index("l", I(2), I(0)), Id("x"))},          // an inner list stored into itself through the outer name
 		{rt.Assign("=", Id("x"), rt.Map(S("in"), Id("m"))), rt.Assign("=", Id("y"), Id("x")), rt.Assign("=", rt.Index("m", S("k")), Id("y"))}, // through two aliases
 		{rt.AssignN([]*rt.Node{rt.Index("l", I(0)), Id("y")}, []*rt.Node{Id("l"), I(1)})},
+		// through operators instead of index stores (errors today; whatever they come to mean, no value may end up inside itself)
+		{rt.Assign("=", Id("x"), rt.Bin("+", Id("l"), rt.List(I(4)))), rt.Assign("=", Id("y"), rt.Bin("+", Id("l"), rt.List(Id("x"))))},
+		{rt.Assign("+=", Id("l"), rt.List(Id("l")))},
+		{rt.Assign("=", Id("x"), rt.Bin("+", rt.List(Id("l")), Id("l"))), rt.Assign("=", rt.Index("l", I(0)), Id("x"))},
+		{rt.Assign("+=", Id("m"), Id("m"))},
+		{rt.Assign("=", Id("x"), rt.Bin("*", Id("l"), I(2))), rt.Assign("=", rt.Index("x", I(0)), Id("x"))},
 	}
 	consumers := func(k string) []*rt.Node {
 		return []*rt.Node{
